@@ -18,6 +18,10 @@ def run(ctx, F, cg):
     ctx.rule("R05d", "the WITH barrier drains its input before emitting: after a pulled row the only continuations are another pull or an error, so an upstream failure cannot follow downstream writes")
     sr.validate_then_mutate(ctx, F, cg, "R05c")
     sr.barrier_drains(ctx, F, cg, "R05d")
+    ctx.rule("R05e", "a schema statement is all or nothing: the operator of CREATE / DROP INDEX, CREATE CONSTRAINT, vector / composite / hierarchy index validates before it registers anything — no error exit is reachable from a store-mutating call of its next_mut (a manager method that can only fail before it takes its write lock counts on its Ok side only)")
+    sr.ddl_operators_all_or_nothing(ctx, F, cg, "R05e")
+    ctx.rule("R05f", "a failing row leaves no half-built node: in a write operator, every error exit reachable from a create_node* call (before the next row is pulled) passes delete_node; violations are keyed by the call whose failure escapes")
+    sr.no_half_built_node(ctx, F, cg, "R05f")
     drivers = []
     for p, r in sorted(F.fns.items()):
         if not in_module(p, "samyama::query::"):
